@@ -98,19 +98,19 @@ func liveCase(prop, engine string, weight int, o storeworld.LiveOpts) Case {
 
 // Cases lists every (property, engine) pair.
 var Cases = []Case{
-	seqCase("C02", "dbworld-seq", 1, dbworld.Profile{DiskFaults: true, MaxOps: 40, MaxNames: 3,
+	seqCase("C02", "dbworld-seq", 1, dbworld.Profile{DiskFaults: true, HugeValues: true, Soak: true, MaxOps: 40, MaxNames: 3,
 		Oracles: orc("result", "list", "state", "open")}),
-	seqCase("C01", "dbworld-acl", 1, dbworld.Profile{Restricted: 3, HTTPMode: 1, RuleChanges: true, AuditFaults: true, MaxOps: 60, MaxNames: 4,
+	seqCase("C01", "dbworld-acl", 1, dbworld.Profile{Restricted: 3, HTTPMode: 1, RuleChanges: true, AuditFaults: true, Dashboard: true, MaxOps: 60, MaxNames: 4,
 		Oracles: orc("denied", "denied-identical", "result", "list", "state", "open")}),
-	seqCase("C03", "dbworld-restart", 1, dbworld.Profile{RestartMode: 1, Golden: true, LaxModes: true, DiskFaults: true, MaxOps: 30, MaxNames: 3,
+	seqCase("C03", "dbworld-restart", 1, dbworld.Profile{RestartMode: 1, Golden: true, LaxModes: true, DiskFaults: true, Symlinks: true, MaxOps: 30, MaxNames: 3,
 		Oracles: orc("result", "list", "state", "restart", "open-modifies", "golden", "open")}),
-	seqCase("C09", "dbworld-cond", 1, dbworld.Profile{HTTPMode: 1, Restricted: 1, RestartMode: 1, CondHeavy: true, FileClient: true, DiskFaults: true, AuditFaults: true, MaxOps: 40, MaxNames: 2,
+	seqCase("C09", "dbworld-cond", 1, dbworld.Profile{HTTPMode: 1, Restricted: 1, RestartMode: 1, CondHeavy: true, FileClient: true, DiskFaults: true, AuditFaults: true, HugeValues: true, MaxOps: 40, MaxNames: 2,
 		Oracles: orc("result", "state", "denied", "open", "fileclient")}),
 	seqCase("C06", "dbworld-audit", 3, dbworld.Profile{Restricted: 2, HTTPMode: 1, AuditFaults: true, MaxOps: 30, MaxNames: 3,
 		Oracles: orc("audit", "audit-quiet", "audit-order", "audit-failclosed", "open")}),
-	seqCase("C08", "dbworld-http", 1, dbworld.Profile{Restricted: 2, HTTPMode: 2, Corruptions: true, RuleChanges: true, MaxOps: 40, MaxNames: 3,
+	seqCase("C08", "dbworld-http", 1, dbworld.Profile{Restricted: 2, HTTPMode: 2, Corruptions: true, RuleChanges: true, AuditFaults: true, Dashboard: true, HugeValues: true, MaxOps: 40, MaxNames: 3,
 		Oracles: orc("http-gate", "http-status", "http-leak", "result", "list", "denied", "state", "audit", "open")}),
-	seqCase("C05", "dbworld-scan", 3, dbworld.Profile{Scan: true, KEKOutage: true, RestartMode: 1, LaxModes: true, MaxOps: 25, MaxNames: 3,
+	seqCase("C05", "dbworld-scan", 3, dbworld.Profile{Scan: true, KEKOutage: true, RestartMode: 1, LaxModes: true, Soak: true, MaxOps: 25, MaxNames: 3,
 		Oracles: orc("plaintext", "mode", "kek", "result", "state", "restart", "open", "audit-noleak")}),
 	tamperCase(),
 	concCase("C14", "dbworld-conc", 1, false, orc("linearizable", "deadlock")),
@@ -128,15 +128,20 @@ var Cases = []Case{
 			return Outcome{Trace: w.Trace, Nontrivial: len(w.Bucket.Uploads) > 0, Ops: w.Ops + len(w.Bucket.Uploads)}
 		}},
 	storeCase("C10", "storeworld-ctor", 1, storeworld.RunC10),
-	storeCase("C16", "storeworld-lookup", 1, storeworld.RunC16),
-	liveCase("C11", "storeworld-live", 6, storeworld.LiveOpts{Lookup: true, Expiry: true, SvcFaults: true, CacheFaults: true, Readers: true,
+	storeCase("C16", "storeworld-lookup", 2, storeworld.RunC16),
+	liveCase("C16", "storeworld-live", 1, storeworld.LiveOpts{Lookup: true, Expiry: true, SvcFaults: true, Readers: true, Restarts: true,
+		Oracles: orc("read-value", "fresh")}),
+	liveCase("C11", "storeworld-live", 6, storeworld.LiveOpts{Lookup: true, Expiry: true, SvcFaults: true, CacheFaults: true, Readers: true, Deletes: true,
 		Oracles: orc("fresh", "coalesce", "converge", "read-value")}),
 	storeCase("C11", "storeworld-cadence", 1, storeworld.RunC11Cadence),
+	storeCase("C11", "storeworld-many", 1, func(s *kernel.Sim) *storeworld.World { return storeworld.RunManyTwin(s, "C11") }),
 	storeCase("C13", "storeworld-corrupt", 1, storeworld.RunC13Corrupt),
-	liveCase("C12", "storeworld-live", 1, storeworld.LiveOpts{Lookup: true, Expiry: true, SvcFaults: true, Readers: true, Close: true,
+	liveCase("C12", "storeworld-live", 3, storeworld.LiveOpts{Lookup: true, Expiry: true, SvcFaults: true, Readers: true, Close: true,
 		Oracles: orc("read-value", "read-order", "read-blocks", "read-after-poll")}),
+	storeCase("C12", "storeworld-corrupt", 1, func(s *kernel.Sim) *storeworld.World { return storeworld.RunCorrupt(s, "C12") }),
+	storeCase("C12", "storeworld-many", 1, func(s *kernel.Sim) *storeworld.World { return storeworld.RunManyTwin(s, "C12") }),
 	storeCase("C12", "storeworld-race", 1, func(s *kernel.Sim) *storeworld.World { return storeworld.RunStoreRace(s, "C12") }),
-	liveCase("C19", "storeworld-live", 1, storeworld.LiveOpts{Lookup: true, Expiry: true, Restarts: true, Readers: true, Skew: true,
+	liveCase("C19", "storeworld-live", 1, storeworld.LiveOpts{Lookup: true, Expiry: true, Restarts: true, Readers: true, Skew: true, Deletes: true, Updaters: true,
 		Oracles: orc("drop", "lastaccess")}),
 	liveCase("C15", "storeworld-live", 1, storeworld.LiveOpts{Lookup: true, Updaters: true, SvcFaults: true, CacheFaults: true, Expiry: true,
 		Oracles: orc("upd-value", "upd-rebuild", "upd-lost", "upd-error", "upd-close")}),
